@@ -150,3 +150,50 @@ pub fn read_before_overwrite(p: &mut Pair, set: &mut std::collections::HashSet<u
         set.insert(winner);
     }
 }
+
+/// who-may-write (field_mutators): `table` is written by `Owner::add` (push through &mut), by `Owner::patch`
+/// (index assignment) and inside a closure of `Owner::drain_some`; `Owner::peek` only reads.
+pub struct Owner {
+    pub table: Vec<(usize, f32)>,
+    pub other: u32,
+}
+
+impl Owner {
+    pub fn add(&mut self, k: usize, v: f32) {
+        self.table.push((k, v));
+    }
+    pub fn patch(&mut self, i: usize, v: f32) {
+        self.table[i].1 = v;
+    }
+    pub fn drain_some(&mut self, ks: &[usize]) {
+        ks.iter().for_each(|k| self.table.retain(|(d, _)| d != k));
+    }
+    pub fn peek(&self) -> usize {
+        self.other as usize + self.table.len()
+    }
+    pub fn bump(&mut self) {
+        self.other += 1;
+    }
+}
+
+/// sequencing (alternatives through phi): `step_good` predicts on both arms, `step_bad` skips it on one
+pub struct Filt;
+impl Filt {
+    pub fn initiate(&self, x: f32) -> f32 { x }
+    pub fn predict(&self, s: f32) -> f32 { s + 1.0 }
+    pub fn update(&self, s: f32, x: f32) -> f32 { (s + x) / 2.0 }
+}
+
+pub fn step_good(f: &Filt, st: Option<f32>, x: f32) -> f32 {
+    let cur = if let Some(s) = st { s } else { f.initiate(x) };
+    let p = f.predict(cur);
+    f.update(p, x)
+}
+
+pub fn step_bad(f: &Filt, st: Option<f32>, x: f32) -> f32 {
+    let p = match st {
+        Some(s) => f.predict(s),
+        None => f.initiate(x),
+    };
+    f.update(p, x)
+}
